@@ -114,8 +114,10 @@ theorem C11_outside (hook : SS.Options.Acts) :
       = [.enter ⟨some true, some false⟩] ++ (SS.Options.evalActs hook ⟨some true, some false⟩).events ++ [.leave SS.Options.Cell.unset] := by
   constructor
   · simp [SS.Options.evalCall, SS.Options.Cell.unset]
-  · simp [SS.Options.evalCall, SS.Options.evalHooks, SS.Options.evalActs, SS.Options.Cell.unset]
-    split <;> simp
+  · -- whichever way the hook ends (normally, by an exception, by a BaseException) the events are the same
+    simp only [SS.Options.evalCall, SS.Options.evalHooks, SS.Options.evalActs, SS.Options.Cell.unset]
+    by_cases h1 : (SS.Options.evalActs hook ⟨some true, some false⟩).raised = true <;>
+    by_cases h2 : (SS.Options.evalActs hook ⟨some true, some false⟩).aborted = true <;> simp [h1, h2]
 
 /-! non-vacuity: wrapper 1 (sets children) unwraps to 2 (elaborate replaces obj by 20, sets description), 20 → None -/
 def exEnv : Env :=
